@@ -137,7 +137,14 @@ def translate():
     rc, out = sh([sys.executable, os.path.join(VERIF, 'tools', 'cxx2coq.py'), '--repo', REPO,
                   '--out', os.path.join(COQ, 'gen')], timeout=300)
     rep = json.load(open(os.path.join(COQ, 'gen', 'gen_report.json')))
-    return rep, out
+    # the rounding call of nearest_neighbour::at (Gen_Nearest.v)
+    rc2, out2 = sh([sys.executable, os.path.join(VERIF, 'tools', 'cxx_nearest.py'), REPO, os.path.join(COQ, 'gen')], timeout=120)
+    try:
+        rep['nearest'] = json.loads(out2.strip().split('\n')[-1])
+    except Exception:
+        rep['nearest'] = {'error': out2[-500:]}
+        rep['untranslatable'].append({'name': 'nn_callee', 'group': 'Nearest', 'why': out2[-500:]})
+    return rep, out + out2
 
 
 def coq_makefile():
